@@ -22,7 +22,9 @@ ASSUMPTIONS = [
   "and over every quasi-random start",
   "validity conditions of a request: grid (quantized) elements are listed in increasing order (C09 speaks of sorted grids; an unsorted grid "
   "makes form_one_hot_hyperparameter_domain produce an inverted entry, see C11_search_box_unsorted_grid_refuted); at least one successful "
-  "observation (numpy.ptp of an empty array raises otherwise); supplied hyperparameters positive and of the domain's structure; "
+  "observation (numpy.ptp of an empty array raises otherwise); supplied alpha / length scales / task length positive and of the domain's "
+  "structure, a supplied nugget is any value >= 0 (exactly 0.0 is a given nugget: 'given' is `is not None`; the fit never reads its value); "
+  "the two metric index lists come in any order (position k pairs with raw column list[k]); "
   "zero or constant mean on domains with categorical parameters (a linear mean is collinear with the one-hot columns)",
   "'equal to the supplied values' is read as: equal to the start vector built from the supplied alpha, length scales and task length; its "
   "nugget slot holds the likelihood object's initial 1e-10, not the supplied nugget (known finding C11:endpoint:fallback-nugget-is-default-1e-10)",
@@ -137,14 +139,21 @@ def gen_request(rng, exact, real=False):
         ls.append([w * rng.choice([0.125, 0.25, 0.5]) if exact else w * rng.uniform(0.05, 0.9)])
     hps.append({"alpha": dy(rng, 0.125, 4, 8) if exact else 10 ** rng.uniform(-2, 1), "length_scales": ls,
                 "task_length": (rng.choice([0.5, 0.75, 1.0]) if multitask else None),
-                "tikhonov": (rng.choice([2.0 ** -10, 2.0 ** -6, 0.25]) if rng.random() < 0.5 else None)})
+                "tikhonov": (rng.choice([2.0 ** -10, 2.0 ** -6, 0.25, 0.0]) if rng.random() < 0.5 else None)})
+  # a supplied nugget of exactly 0.0 is a GIVEN nugget ("nugget iff one was given": the test is `is not None`, and the fit
+  # never reads the supplied value - it starts from 1e-10).  The two index lists come in ANY order (a request lists its
+  # metrics as the caller pleases): position k of a list pairs with raw column list[k], not with the k-th smallest index.
+  optimized = [j for j, r in enumerate(roles) if r == "opt"]
+  constraint = [j for j, r in enumerate(roles) if r == "con"]
+  rng.shuffle(optimized)
+  rng.shuffle(constraint)
   return dict(
     components=comps, points=pts, task_options=[0.25, 0.5, 1.0] if multitask else [],
     task_costs=[rng.choice([0.25, 0.5, 1.0]) for _ in range(n)] if multitask else None,
     values=[[cols[j][i] for j in range(m)] for i in range(n)],
     value_vars=[[rng.choice([0.0, 2.0 ** -10, 2.0 ** -6]) if exact else 10 ** rng.uniform(-6, -2) for _ in range(m)] for _ in range(n)],
     failures=fails, objectives=[rng.choice(["maximize", "minimize"]) for _ in range(m)],
-    optimized=[j for j, r in enumerate(roles) if r == "opt"], constraint=[j for j, r in enumerate(roles) if r == "con"],
+    optimized=optimized, constraint=constraint,
     hps=hps, mean_type=rng.choice(["zero", "constant"]), kinds=kinds, np_seed=rng.getrandbits(31))
 
 
@@ -374,7 +383,10 @@ def correspondence(ctx):
     nfit = len(res["fits"])
     fallback = sum(1 for f in res["fits"] if U.flatten_dict(inp["components"], res["out"][f["metric"]])[0] == f["x0"])
     add(U.endpoint_case(inp, res), "endpoint", full, dict(out=res["out"], fits=[{k: f[k] for k in ("metric", "vals", "box", "x0")} for f in res["fits"]]),
-        f"fits{nfit}" + (":multitask" if inp["task_options"] else "") + (":fallback" if fallback else ""), nfit >= 1)
+        f"fits{nfit}" + (":multitask" if inp["task_options"] else "") + (":fallback" if fallback else "")
+        + (":unsorted-index-list" if inp["constraint"] != sorted(inp["constraint"]) or inp["optimized"] != sorted(inp["optimized"]) else "")
+        + (":zero-nugget-fitted" if any(inp["hps"][f["metric"]]["tikhonov"] == 0.0 for f in res["fits"] if 0 <= f["metric"] < len(inp["hps"])) else ""),
+        nfit >= 1)
   nll = ctx.n(150, 3000)
   for _ in range(nll):
     inp = loglik_numeric(rng)
@@ -390,8 +402,8 @@ def correspondence(ctx):
               rule="likelihood objects (C4 radial and multitask tensor kernels, dim 1-5, both parameterisations, with/without nugget slot, wrong lengths, "
                    "non-positive entries); search boxes (1-4 parameters of all four types, regular / constant / near-constant / empty / single value lists, "
                    "task and nugget slots, several discrete lower limits); length-scale regrouping (None defaults); endpoint requests (1-3 parameters, 3-7 "
-                   "distinct observations, 1-4 metrics in optimised / constraint / stored roles, constant and near-constant metrics, failures, tasks, supplied "
-                   "nuggets) with ten scripted SLSQP outcomes per fit (raised / failed / out-of-box / corner / NaN value / ties); non-trivial = at least one "
+                   "distinct observations, 1-4 metrics in optimised / constraint / stored roles with both index lists in any order, constant and "
+                   "near-constant metrics, failures, tasks, supplied nuggets incl. exactly 0.0) with ten scripted SLSQP outcomes per fit (raised / failed / out-of-box / corner / NaN value / ties); non-trivial = at least one "
                    "fit constructed (endpoint), >= 2 parameters (box); distinct by hash of the canonical input; plus numeric likelihood comparisons",
               samples=[dict(kind=k, input=i, impl_output=o) for k, i, o in meta[:1] + meta[-2:]], distribution=dist, disagreements=dis)
 
@@ -599,7 +611,8 @@ LEVEL_TEXT = ("Coq theorems for all inputs: set-then-get identity of the likelih
               "the nugget slot, equality of the log-parameterised value at a and the linear one at exp a, the likelihood value as "
               "-scale*(r'K^-1 r + log det K) on definitions regenerated from the source; for the endpoint: the search box is positive with lo < hi for "
               "every well-formed domain, the result dictionary has the supplied structure and loses no value, the multistart returns an in-box end point "
-              "or the start vector for every behaviour of SLSQP, every fit uses its own metric's scaled successful values, constant and stored metrics are "
+              "or the start vector for every behaviour of SLSQP, every fit uses its own metric's scaled successful values (the raw column named by its "
+              "position in the index list, lists in any order: C11_fit_on_own_raw_column), constant and stored metrics are "
               "returned untouched; the models are tied to the code by in-Coq differential runs through the real endpoint with scripted SLSQP outcomes and "
               "introspected likelihood objects, and by a slogdet-based numeric comparison of the likelihood value")
 LEVEL_NOTE = ("Exact arithmetic; exp/log and SLSQP are oracles; the multistart model is C07's, the value scaling C12's, the one-hot rows C09's; "
